@@ -1,9 +1,17 @@
 #!/bin/sh
 # Offline setup: make sure hypothesis is importable by /venv/bin/python (it is pre-installed
-# there; otherwise install it from the offline wheelhouse into /verif/.deps).
+# there; otherwise install it from the offline wheelhouse into /verif/.deps), and install
+# atheris (coverage-guided stage of C03 / C12 / C13 / C20) next to it.  A missing atheris is
+# not fatal: that stage is then skipped and says so in the evidence.
 HERE="$(cd "$(dirname "$0")" && pwd)"
-if PYTHONPATH="$HERE/.deps" /venv/bin/python -c "import hypothesis, psutil, six" 2>/dev/null; then
-  echo "setup: hypothesis available"; exit 0
+WH=/opt/veriftools/wheels
+if ! PYTHONPATH="$HERE/.deps" /venv/bin/python -c "import hypothesis, psutil, six" 2>/dev/null; then
+  /venv/bin/pip install --no-index --find-links $WH --target "$HERE/.deps" hypothesis || exit 1
 fi
-/venv/bin/pip install --no-index --find-links /opt/veriftools/wheels --target "$HERE/.deps" hypothesis || exit 1
-PYTHONPATH="$HERE/.deps" /venv/bin/python -c "import hypothesis; print('setup: installed hypothesis', hypothesis.__version__)"
+PYTHONPATH="$HERE/.deps" /venv/bin/python -c "import hypothesis; print('setup: hypothesis', hypothesis.__version__)" || exit 1
+if ! PYTHONPATH="$HERE/.deps" /venv/bin/python -c "import atheris" 2>/dev/null; then
+  /venv/bin/pip install -q --no-index --find-links $WH --target "$HERE/.deps" atheris 2>/dev/null \
+    || echo "setup: atheris not installable here (coverage-guided stage will be skipped)"
+fi
+PYTHONPATH="$HERE/.deps" /venv/bin/python -c "import atheris; print('setup: atheris available')" 2>/dev/null || true
+exit 0
